@@ -13,6 +13,29 @@ import gemclus.gemini as G  # noqa: E402
 FDIV = {"kl": "KLGEMINI", "tv": "TVGEMINI", "hellinger": "HellingerGEMINI", "chi2": "ChiSquareGEMINI"}
 
 
+class _FeedSparse:
+    """hands every affinity to the wrapped objective as a scipy sparse matrix (attributes are those of the objective)"""
+
+    def __init__(self, g):
+        object.__setattr__(self, "_g", g)
+
+    def __getattr__(self, k):
+        return getattr(object.__getattribute__(self, "_g"), k)
+
+    def __setattr__(self, k, v):
+        setattr(object.__getattribute__(self, "_g"), k, v)
+
+    def _sp(self, A):
+        import scipy.sparse as sp
+        return sp.csr_matrix(A)
+
+    def __call__(self, P, A, return_grad=False):
+        return self._g(P, self._sp(A), return_grad)
+
+    def evaluate(self, P, A, return_grad=False):
+        return self._g.evaluate(P, self._sp(A), return_grad)
+
+
 def make_mmd(a, ovo, X):
     """Returns (gemini, affinity obtained through compute_affinity, harness affinity)."""
     Aref = gens.ref_affinity_for_form(a, X)
@@ -27,6 +50,9 @@ def make_mmd(a, ovo, X):
         with warnings.catch_warnings():
             warnings.simplefilter("ignore")
             A = g.compute_affinity(X)
+    elif a["form"] == "sparse":
+        g = _FeedSparse(G.MMDGEMINI(ovo=ovo, kernel="precomputed"))
+        A = Aref.copy()
     elif a["form"] == "foreign":
         g = G.MMDGEMINI(ovo=ovo, kernel=a["name"], kernel_params=dict(a["params"]) if a["params"] else None)
         A = Aref.copy()
@@ -65,7 +91,7 @@ def gemini_spec(draw, bases=("kl", "tv", "hellinger", "chi2", "mmd", "wasserstei
     base = draw(st.sampled_from(list(bases)))
     gs = {"base": base, "ovo": draw(st.booleans())}
     if base == "mmd":
-        gs["a"] = draw(gens.kernel_spec(forms=kernel_forms or (("named", "callable", "precomputed", "psd", "indef") + (("foreign", "sk_callable") if foreign else ()))))
+        gs["a"] = draw(gens.kernel_spec(forms=kernel_forms or (("named", "callable", "precomputed", "psd", "indef") + (("foreign", "sk_callable", "sparse") if foreign else ()))))
     elif base == "wasserstein":
         gs["a"] = draw(gens.metric_spec(forms=metric_forms or (("named", "precomputed", "randdist") + (("foreign", "sk_callable") if foreign else ()))))
     else:
@@ -79,7 +105,8 @@ def _decoy(g, a, X):
     """The objective is a pure function of (predictions, affinity): asking the same object for the affinity of another
     data set of the same size in between must not change later evaluations (no state may leak through the object)."""
     rs = np.random.RandomState(a["aseed"] % 1000 + 1)
-    X2 = np.abs(X[rs.permutation(len(X))] * 1.7 + 0.3) if gens.needs_nonneg(a) else X[rs.permutation(len(X))] * 1.7 + 0.3
+    c = [1.7, 1.7, 1e12, 1e-12][a["aseed"] % 4]  # the other data set may well be in other units
+    X2 = np.abs(X[rs.permutation(len(X))] * c + 0.3 * min(c, 1.0)) if gens.needs_nonneg(a) else X[rs.permutation(len(X))] * c + 0.3 * min(c, 1.0)
     try:
         if a["form"] in ("named", "callable", "sk_callable"):
             g.compute_affinity(X2)
